@@ -80,14 +80,16 @@ def drive(case: dict):
             write_delimited(frame, out)
 
     def send(i: int, st_api, neutral) -> None:
+        # (statements may be handed over as one-shot iterators of terms)
+        one_shot = iter if case.get("as_iter") else (lambda x: x)
         try:
             if cls == "triple":
-                emit(stream.triple(st_api))
+                emit(stream.triple(one_shot(st_api)))
             elif cls == "quad":
-                emit(stream.quad(st_api))
+                emit(stream.quad(one_shot(st_api)))
             else:
                 g = st_api[3] if len(st_api) > 3 else to_api((T.DEFAULT,), api)[0]
-                for fr in stream.graph(g, [st_api[:3]]):
+                for fr in stream.graph(g, [one_shot(tuple(st_api[:3]))]):
                     emit(fr)
         except Exception as e:  # noqa: BLE001
             raised_at.append((i, type(e).__name__))
@@ -253,6 +255,8 @@ def shard(job) -> dict:
                 variants.append({**base, "pregen": True})
             if pos >= 1 and pos < n - 1 and frame_size == 250:
                 variants.append({**base, "cut_after_reject": True})
+            if n <= 2 and frame_size == 250:
+                variants.append({**base, "as_iter": True})
             if cls == "graph" and n >= 2 and frame_size == 250:
                 # flows that cut per dataset / never (not by size)
                 variants.append({**base, "logical": 4})
